@@ -110,9 +110,10 @@ ASSUMPTIONS = [
     "a nested def that reads the enclosing `loop` is called at the level of that loop only, not from a deeper "
     "`% for` (there the closure sees the deeper loop - Python's closure semantics - while textually its innermost "
     "enclosing loop is the outer one; the property text leaves it open)",
-    "while the shared code-generator model (Codegen/Model.lean `refsLoop`) predates /repo bca4969, templates with a "
-    "`% for` rewritten only because of a `loop` mention inside a nested def / <%call> body are left out of the three "
-    "`tgt` comparisons (probed at start-up, counted in the evidence branches); the native oracle judges them",
+    "the shared code-generator model (Codegen/Model.lean `refsLoop`) follows /repo bca4969 (a function holding a "
+    "rewritten `% for` creates its `__M_loop`); a start-up probe of the driver guards the three `tgt` comparisons "
+    "against an older model (it would leave out the templates whose `% for` is rewritten only because of a `loop` "
+    "mention inside a nested def / <%call> body and count them in the evidence branches) - inactive now: 0 skipped",
     "`_FOR_LOOP` (the regex that splits a `% for` header) is a parameter of the Lean model: the harness supplies "
     "target and iterable of the generated header",
     "the shared specification renderer (Codegen/Spec.lean) gives a nested def / <%call> body no enclosing loop; "
